@@ -187,7 +187,9 @@ func runC13(c *Ctx) {
 				T := tobj.Type().(*types.Named)
 				pfns := p.SrcFuncs("pkg/sql/parser", "pkg/sql/tokenizer")
 				depth := findDepthField(pfns, T, limit)
-				g := p.Restrict(func(f *ssa.Function) bool { return f != nil && f.Blocks != nil && core.InPkgs(f, "pkg/sql/parser", "pkg/sql/tokenizer") })
+				g := p.Restrict(func(f *ssa.Function) bool {
+					return f != nil && f.Blocks != nil && core.InPkgs(f, "pkg/sql/parser", "pkg/sql/tokenizer")
+				})
 				seen := map[*ssa.Function]bool{}
 				for _, fn := range pfns {
 					if fn.Parent() != nil || seen[fn] {
